@@ -20,13 +20,13 @@ MANIFEST = {
                   "expectedSize / remaining bytes, per-entry size as a function of version and flags, make([]T, n) with its element size, "
                   "entry loop with the accumulated-error reader) of trun stts ctts stsc stsz stco co64 stss sdtp saiz saio senc sbgp subs elst tfra "
                   "sidx pssh ssix tref-type leva uuid(tfxd/tfrf/piff-senc/other) ftyp styp hvcC avcC (array / NALU loops) tlou/alou, both phases of senc (DecodeSenc/SR guard, then ParseReadBox/parseAndFillSamples: <= 72*len+360 bytes) and the whole sgpd entry loop (seig/roll/rap/alst/other) return for EVERY header and body, request at most a*size+b bytes and loop at "
-                  "most size/entry+c times (C04_alloc_<box>; box level on both paths: <= 172*len+1048560 bytes (sgpd's factor; <= 12*len for the others), <= 6*len+65536 iterations for "
+                  "most size/entry+c times (C04_alloc_<box>; box level on both paths (the senc second phase has its own theorem): <= 172*len+1048560 bytes (sgpd's factor; <= 12*len for the others), <= 6*len+65536 iterations for "
                   "every byte string below 32 GiB), with machine-checked refutations for the pinned sgpd/alst text (4 GiB from 28 bytes, "
                   "repaired) and for ctts at exactly 32 GiB (uint32 wrap of entryCount+1, not reproducible). "
-                  "EXPLORED only: the other ~110 leaf decoder bodies, all encoder/Info bodies, the value-dependent tails of ssix/leva, "
+                  "EXPLORED only: the other ~100 leaf decoder bodies, all encoder/Info bodies, the value-dependent tails of ssix/leva, "
                   "real wall-clock time and real heap (the model's ticks are "
                   "not seconds): structured mutation fuzzing of all testdata files and boxes, and count/length-field inflation (0, 1, exact, "
-                  "exact+1, 1024, 1025, 2^16, 2^22, 2^31-1, 2^31, 2^32-4, 2^32-1 clipped to the field width) of every count or length field of "
+                  "exact+1, 1024, 1025, 2^16, 2^22, 2^31-1, 2^31, 2^32-4, 2^32-1 clipped to the field width, the guard-boundary values (payload-d)/e and +1, all fields of a box jointly) of every count or length field of "
                   "34 box types under every version/flags combination that changes the per-entry size (incl. size 0), compact and "
                   "large-size header, trailing bytes, both decode paths, box level and nested in a file, plus a catch-all (every registered "
                   "box type, 32-bit word at each of the first offsets inflated), with per-input time and allocation budgets.",
